@@ -187,13 +187,120 @@ theorem specUse_ren (hr : RenOK ρ P N) (g : Globals) (lang : Option Lang) {env 
     rw [renUse_qual, hq]
     exact specUseScoped_ren hr g lang h hc u hn
 
+/-- renaming does not look at the expected enum -/
+theorem renUse_withColor (env : Env) (u : Use) (c : Option Name) :
+    { renUse ρ env u with color := c } = renUse ρ env { u with color := c } := by
+  obtain ⟨id, ns, name, color, q⟩ := u
+  cases q with
+  | some e => rfl
+  | none => cases ns <;> simp only [renUse, renUseScoped] <;> split <;> rfl
+
+mutual
+theorem skipExpr_ren (env : Env) : ∀ (e : Expr), skipExpr (renExpr ρ env e) = skipExpr e
+  | .use u => by
+    simp only [renExpr, skipExpr]
+    unfold renUse
+    cases hq : u.enumQual with
+    | some e => rfl
+    | none => simp only []; rw [renUse_id]
+  | .group es => by simp only [renExpr, skipExpr]; exact skipExprs_ren env es
+  | .call u args => by
+    simp only [renExpr, skipExpr]
+    rw [skipExprs_ren env args]
+    congr 2
+    unfold renUse
+    cases hq : u.enumQual with
+    | some e => rfl
+    | none => simp only []; rw [renUse_id]
+  | .raw op args => by simp only [renExpr, skipExpr]; exact skipExprs_ren env args
+theorem skipExprs_ren (env : Env) : ∀ (es : List Expr), skipExprs (renExprs ρ env es) = skipExprs es
+  | [] => by simp [renExprs, skipExprs]
+  | e :: es => by simp only [renExprs, skipExprs]; rw [skipExpr_ren env e, skipExprs_ren env es]
+end
+
+/-- Walking a renamed expression in the renamed environment gives the same events: every name is
+looked up to the same result, hence every callee has the same signature and the same arguments
+are visited. -/
+theorem walk_ren (hr : RenOK ρ P N) (g : Globals) (lang : Option Lang) {env env' : Env}
+    (h : EnvRel ρ P env env') (hc : EnvClean env) :
+    (∀ (e : Expr) (c : Option Name), (∀ x ∈ exprNames e, N x) →
+      walkExpr g lang (specUse g lang env') c (renExpr ρ env e) = walkExpr g lang (specUse g lang env) c e) ∧
+    (∀ (es : List Expr) (c : Option Name), (∀ x ∈ exprsNames es, N x) →
+      walkExprs g lang (specUse g lang env') c (renExprs ρ env es) = walkExprs g lang (specUse g lang env) c es) ∧
+    (∀ (es : List Expr) (c : Option Name) (sig : Option Sig), (∀ x ∈ exprsNames es, N x) →
+      walkArgs g lang (specUse g lang env') c sig (renExprs ρ env es) =
+        walkArgs g lang (specUse g lang env) c sig es) := by
+  have look : ∀ (u : Use) (c : Option Name), N u.name →
+      specUse g lang env' { renUse ρ env u with color := c } = specUse g lang env { u with color := c } := by
+    intro u c hn
+    rw [renUse_withColor]
+    exact specUse_ren hr g lang h hc { u with color := c } hn
+  have key : ∀ n : Nat,
+      (∀ (e : Expr), sizeOf e < n → ∀ c, (∀ x ∈ exprNames e, N x) →
+        walkExpr g lang (specUse g lang env') c (renExpr ρ env e) = walkExpr g lang (specUse g lang env) c e) ∧
+      (∀ (es : List Expr), sizeOf es < n → ∀ c, (∀ x ∈ exprsNames es, N x) →
+        walkExprs g lang (specUse g lang env') c (renExprs ρ env es) = walkExprs g lang (specUse g lang env) c es) ∧
+      (∀ (es : List Expr), sizeOf es < n → ∀ c sig, (∀ x ∈ exprsNames es, N x) →
+        walkArgs g lang (specUse g lang env') c sig (renExprs ρ env es) =
+          walkArgs g lang (specUse g lang env) c sig es) := by
+    intro n
+    induction n with
+    | zero => exact ⟨fun _ h => absurd h (Nat.not_lt_zero _), fun _ h => absurd h (Nat.not_lt_zero _),
+        fun _ h => absurd h (Nat.not_lt_zero _)⟩
+    | succ n ih =>
+      obtain ⟨ih1, ih2, ih3⟩ := ih
+      refine ⟨?_, ?_, ?_⟩
+      · intro e he c hn
+        cases e with
+        | use u =>
+          simp only [renExpr, walkExpr]
+          rw [look u c (hn _ (by simp [exprNames]))]
+        | group es =>
+          simp only [renExpr, walkExpr]
+          exact ih2 es (by simp at he; omega) c (fun x hx => hn x (by simpa [exprNames] using hx))
+        | call u args =>
+          simp only [renExpr, walkExpr]
+          rw [look u c (hn _ (by simp [exprNames]))]
+          rw [ih3 args (by simp at he; omega) c _ (fun x hx => hn x (by simp [exprNames, hx]))]
+        | raw op args =>
+          simp only [renExpr, walkExpr]
+          exact ih3 args (by simp at he; omega) c _ (fun x hx => hn x (by simpa [exprNames] using hx))
+      · intro es he c hn
+        cases es with
+        | nil => simp [renExprs, walkExprs]
+        | cons e es =>
+          simp only [renExprs, walkExprs]
+          rw [ih1 e (by simp at he; omega) c (fun x hx => hn x (by simp [exprsNames, hx])),
+            ih2 es (by simp at he; omega) c (fun x hx => hn x (by simp [exprsNames, hx]))]
+      · intro es he c sig hn
+        cases es with
+        | nil => cases sig <;> simp [renExprs, walkArgs]
+        | cons e es =>
+          have h1 := ih1 e (by simp at he; omega)
+          have h3 := ih3 es (by simp at he; omega)
+          have hne : ∀ x ∈ exprNames e, N x := fun x hx => hn x (by simp [exprsNames, hx])
+          have hns : ∀ x ∈ exprsNames es, N x := fun x hx => hn x (by simp [exprsNames, hx])
+          cases sig with
+          | none =>
+            simp only [renExprs, walkArgs]
+            rw [h1 c hne, h3 c none hns]
+          | some ps =>
+            cases ps with
+            | nil =>
+              simp only [renExprs, walkArgs]
+              rw [skipExpr_ren env e, h3 c (some []) hns]
+            | cons pc ps =>
+              simp only [renExprs, walkArgs]
+              rw [h1 pc hne, h3 c (some ps) hns]
+  exact ⟨fun e c => (key (sizeOf e + 1)).1 e (Nat.lt_succ_self _) c,
+    fun es c => (key (sizeOf es + 1)).2.1 es (Nat.lt_succ_self _) c,
+    fun es c sig => (key (sizeOf es + 1)).2.2 es (Nat.lt_succ_self _) c sig⟩
+
 theorem specUses_ren (hr : RenOK ρ P N) (g : Globals) (lang : Option Lang) {env env' : Env}
-    (h : EnvRel ρ P env env') (hc : EnvClean env) (us : List Use) (hn : ∀ x ∈ usesNames us, N x) :
-    (us.map (renUse ρ env)).map (specUse g lang env') = us.map (specUse g lang env) := by
-  rw [List.map_map]
-  apply List.map_congr_left
-  intro u hu
-  exact specUse_ren hr g lang h hc u (hn _ (List.mem_map.mpr ⟨u, hu, rfl⟩))
+    (h : EnvRel ρ P env env') (hc : EnvClean env) (c : Option Name) (es : List Expr)
+    (hn : ∀ x ∈ usesNames es, N x) :
+    walkExprs g lang (specUse g lang env') c (renExprs ρ env es) = walkExprs g lang (specUse g lang env) c es :=
+  (walk_ren hr g lang h hc).2.1 es c hn
 
 /-! ### declaration lists -/
 
@@ -356,7 +463,7 @@ theorem specDeclVars_ren (hr : RenOK ρ P N) (g : Globals) (lang : Option Lang) 
       (hereRel_update hr hh v.name hpv) (envClean_update env hc v.name .local v.id)
       (fun w hw => hv w (by simp [hw]))
     simp only [renDeclVars, specDeclVars] at *
-    rw [h1, hh v.name hpv, specUses_ren hr g lang he hc v.init hnv]
+    rw [h1, hh v.name hpv, specUses_ren hr g lang he hc none v.init hnv]
     exact ⟨rfl, h2, h3⟩
 
 /-! ### statements -/
@@ -374,6 +481,8 @@ theorem itemDecls_ren : ∀ (ss : List Stmt) (env : Env),
     | block b => simp only [renStmts, renStmt, itemDecls]; exact ih _
     | script b => simp only [renStmts, renStmt, itemDecls]; exact ih _
     | func id name qual params body =>
+      simp only [renStmts, renStmt, itemDecls, List.map_cons, renDecl]; rw [ih]
+    | funcDecl id name qual params =>
       simp only [renStmts, renStmt, itemDecls, List.map_cons, renDecl]; rw [ih]
     | const vars =>
       simp only [renStmts, renStmt, itemDecls, List.map_append, renConstVars, List.map_map]
@@ -399,6 +508,12 @@ theorem itemDecls_names : ∀ (ss : List Stmt) (d : Ns × Nat × Name), d ∈ it
       rcases h with h | h
       · subst h; exact Or.inl rfl
       · exact Or.inr (Or.inr (ih d h))
+    | funcDecl id name qual params =>
+      simp only [itemDecls, stmtsDeclNames, stmtDeclNames, List.mem_cons, List.cons_append,
+        List.nil_append] at *
+      rcases h with h | h
+      · subst h; exact Or.inl rfl
+      · exact Or.inr (ih d h)
     | const vars =>
       simp only [itemDecls, stmtsDeclNames, stmtDeclNames, List.mem_append, List.mem_map] at *
       rcases h with ⟨v, hv, hd⟩ | h
@@ -435,22 +550,22 @@ theorem specBlock_ren (hr : RenOK ρ P N) (g : Globals) (b : List Stmt) (h : Ren
 
 theorem renConst_events (hr : RenOK ρ P N) (g : Globals) {env env' : Env} (he : EnvRel ρ P env env')
     (hc : EnvClean env) : ∀ (vars : List DeclVar), (∀ v ∈ vars, ∀ x ∈ usesNames v.init, N x) →
-    ((renConstVars ρ env vars).flatMap fun v => v.init.map (specUse g none env')) =
-      vars.flatMap fun v => v.init.map (specUse g none env) := by
+    ((renConstVars ρ env vars).flatMap fun v => walkExprs g none (specUse g none env') none v.init) =
+      vars.flatMap fun v => walkExprs g none (specUse g none env) none v.init := by
   intro vars
   induction vars with
   | nil => intro _; rfl
   | cons v vs ih =>
     intro hn
     simp only [renConstVars, List.map_cons, List.flatMap_cons] at *
-    rw [ih (fun w hw => hn w (by simp [hw])), specUses_ren hr g none he hc v.init (hn v (by simp))]
+    rw [ih (fun w hw => hn w (by simp [hw])), specUses_ren hr g none he hc none v.init (hn v (by simp))]
 
 mutual
 theorem renStmt_ok (hr : RenOK ρ P N) (g : Globals) : ∀ (s : Stmt), RenStmtOK ρ P N g s
   | .expr us => by
     intro lang env env' here here' he hh hc hn hp
     simp only [renStmt, specStmt, envAfter]
-    refine ⟨specUses_ren hr g lang he hc us (by simpa [stmtNames] using hn), he, hh, trivial⟩
+    refine ⟨specUses_ren hr g lang he hc none us (by simpa [stmtNames] using hn), he, hh, trivial⟩
   | .decl vars => by
     intro lang env env' here here' he hh hc hn hp
     have hv : ∀ v ∈ vars, P v.name ∧ ∀ x ∈ usesNames v.init, N x := by
@@ -494,6 +609,10 @@ theorem renStmt_ok (hr : RenOK ρ P N) (g : Globals) : ∀ (s : Stmt), RenStmtOK
     rw [show (params.map fun p => (p.1, ρ p.2)) = params.map (renParam ρ) from rfl, h1]
     rw [← specParams_env params (env.hide .function) (fun _ => false)]
     rw [specBlock_ren hr g body (renStmts_ok hr g body) _ h2 hcl hnb hpb]
+  | .funcDecl id name qual params => by
+    intro lang env env' here here' he hh hc hn hp
+    simp only [renStmt, specStmt, envAfter]
+    exact ⟨trivial, he, hh, trivial⟩
 theorem renStmts_ok (hr : RenOK ρ P N) (g : Globals) : ∀ (ss : List Stmt), RenStmtsOK ρ P N g ss
   | [] => by intro lang env env' here here' _ _ _ _ _; simp [renStmts, specStmts]
   | s :: ss => by
@@ -506,6 +625,24 @@ theorem renStmts_ok (hr : RenOK ρ P N) (g : Globals) : ∀ (ss : List Stmt), Re
       (fun x hx => hn x (by simp [stmtsNames, hx])) (fun x hx => hp x (by simp [stmtsDeclNames, hx]))
     simp only [renStmts, specStmts]
     rw [h1, ← h4, h5]
+end
+
+mutual
+theorem stmtFuncSigs_ren : ∀ (s : Stmt) (env : Env), stmtFuncSigs (renStmt ρ env s) = stmtFuncSigs s
+  | .expr es, env => by simp [renStmt, stmtFuncSigs]
+  | .decl vars, env => by simp [renStmt, stmtFuncSigs]
+  | .block b, env => by simp only [renStmt, stmtFuncSigs]; exact stmtsFuncSigs_ren b _
+  | .script b, env => by simp only [renStmt, stmtFuncSigs]; exact stmtsFuncSigs_ren b _
+  | .const vars, env => by simp [renStmt, stmtFuncSigs]
+  | .funcDecl id name qual params, env => by simp [renStmt, stmtFuncSigs]
+  | .func id name qual params body, env => by
+    simp only [renStmt, stmtFuncSigs, List.length_map]
+    rw [stmtsFuncSigs_ren body _]
+theorem stmtsFuncSigs_ren : ∀ (ss : List Stmt) (env : Env), stmtsFuncSigs (renStmts ρ env ss) = stmtsFuncSigs ss
+  | [], env => by simp [renStmts, stmtsFuncSigs]
+  | s :: ss, env => by
+    simp only [renStmts, stmtsFuncSigs]
+    rw [stmtFuncSigs_ren s env, stmtsFuncSigs_ren ss _]
 end
 
 theorem renStmts_isDecl : ∀ (ss : List Stmt) (env : Env), (∀ s ∈ ss, s.isDecl = false) →
